@@ -124,75 +124,55 @@ def lib_HMS_IsValid (hms : GoSem.HMS) : Option Bool := do
 def lib_Date_IsValid (date : GoSem.Date) : Option Bool := do
   pure ((((decide ((date).Month > 0)) && (decide ((date).Month < 13))) && (decide ((date).Day > 0))) && (decide ((date).Day < 40)))
 
-/-- interval/interval.go:171 -/
-def interval_Less (p : (List interval_IntervalPoint)) (i : Int) (j : Int) : Option Bool := do
-  let a ← (GoSem.idxA p i)
-  let b ← (GoSem.idxA p j)
-  if (decide ((a).Pos ≠ (b).Pos)) then
-    pure (decide ((a).Pos < (b).Pos))
-  else
-    if ((a).IsEnd != (b).IsEnd) then
-      pure (b).IsEnd
-    else
-      if ((a).Closed != (b).Closed) then
-        if (a).IsEnd then
-          pure (b).Closed
-        else
-          pure (a).Closed
-      else
-        if (decide ((a).ListId ≠ (b).ListId)) then
-          pure (decide ((a).ListId < (b).ListId))
-        else
-          pure false
+-- NOT TRANSLATED: interval_Less (interval/interval.go:356): unary operator &
 
 /-- cal_types/julian/julian.go:114 -/
 def julian_IsLeap (year : Int) : Option Bool := do
   pure (decide ((Int.tmod year 4) = 0))
 
--- NOT TRANSLATED: julian_getYearDays (): no such function in the package
-
-/-- cal_types/julian/julian.go:131 -/
-def julian_getMonthDayFromYdays (yDays : Int) (leap : Bool) : Option (Int × Int) := do
-  let febEnd := 59
-  let febEnd ← (do
-    if leap then
-      let febEnd := (febEnd + 1)
-      pure febEnd
+/-- cal_types/julian/julian.go:118 -/
+def julian_getYearDays (month : Int) (leap : Bool) : Option Int := do
+  let ydays ← (GoSem.idx julian_monthLenSum (GoSem.u8 (month - 1)))
+  let ydays ← (do
+    if (leap && (decide (month < 3))) then
+      let ydays := (ydays - 1)
+      pure ydays
     else
-      pure febEnd
+      pure ydays
     )
-  if (decide (yDays < 31)) then
-    pure (1, (GoSem.u8 (yDays + 1)))
-  else
-    if (decide (yDays < febEnd)) then
-      pure (2, (GoSem.u8 ((yDays - 31) + 1)))
-    else
-      let marchDays := (yDays - febEnd)
-      let marchMonth := (Int.tdiv ((5 * marchDays) + 2) 153)
-      let day := (marchDays - (Int.tdiv ((153 * marchMonth) + 2) 5))
-      pure ((GoSem.u8 (marchMonth + 3)), (GoSem.u8 (day + 1)))
+  pure ydays
 
--- NOT TRANSLATED: julian_ToJd (cal_types/julian/julian.go:152): call of github.com/ilius/libgostarcal/cal_types/julian.daysBeforeMonth (not in the list of translated functions)
+/-- cal_types/julian/julian.go:127 -/
+def julian_getMonthDayFromYdays (yDays : Int) (leap : Bool) : Option (Int × Int) := do
+  let month := 1
+  let month ← GoSem.whileFuel GoSem.fuel
+    (fun month => do (do if (decide (month < 12)) then pure (decide (yDays > (← (julian_getYearDays (GoSem.u8 (month + 1)) leap)))) else pure false))
+    (fun month => do
+      let month := (GoSem.u8 (month + 1))
+      pure month
+    )
+    month
+  let day := (GoSem.u8 (yDays - (← (julian_getYearDays month leap))))
+  pure (month, day)
 
-/-- cal_types/julian/julian.go:162 -/
+/-- cal_types/julian/julian.go:137 -/
+def julian_ToJd (date : GoSem.Date) : Option Int := do
+  let (quadCount, yMode) ← (utils_Divmod (date).Year 4)
+  pure ((((1721058 + (1461 * quadCount)) + (365 * yMode)) + (← (julian_getYearDays (date).Month (decide (yMode = 0))))) + (date).Day)
+
+/-- cal_types/julian/julian.go:146 -/
 def julian_JdTo (jd : Int) : Option GoSem.Date := do
   let (quadCount, quadDays) ← (utils_Divmod (jd - 1721058) 1461)
-  let _t1 := 0
-  let _t2 := quadDays
-  let yMode := _t1
-  let yDays := _t2
-  let (yMode, yDays) ← (do
-    if (decide (quadDays > 365)) then
-      let yMode := (Int.tdiv (quadDays - 1) 365)
-      let yDays := (Int.tmod (quadDays - 1) 365)
-      pure (yMode, yDays)
-    else
-      pure (yMode, yDays)
-    )
-  let (month, day) ← (julian_getMonthDayFromYdays yDays (decide (yMode = 0)))
-  (SrcExt.lib_NewDate ((4 * quadCount) + yMode) month day)
+  if (decide (quadDays = 0)) then
+    (SrcExt.lib_NewDate (4 * quadCount) 1 1)
+  else
+    let (yMode, yDays) ← (utils_Divmod (quadDays - 1) 365)
+    let yDays := (yDays + 1)
+    let year := ((4 * quadCount) + yMode)
+    let (month, day) ← (julian_getMonthDayFromYdays yDays (decide (yMode = 0)))
+    (SrcExt.lib_NewDate year month day)
 
-/-- cal_types/julian/julian.go:177 -/
+/-- cal_types/julian/julian.go:162 -/
 def julian_GetMonthLen (year : Int) (month : Int) : Option Int := do
   if (decide (month = 2)) then
     let _c1 ← (julian_IsLeap year)
@@ -213,13 +193,63 @@ def jalali_IsLeap (alg2820 : Bool) (year : Int) : Option Bool := do
     let (jyd2, jym2) ← (utils_Divmod (jy + 1) 33)
     pure (decide (1 = ((((jyd2 - jyd) * 8) + (Int.tdiv (jym2 + 3) 4)) - (Int.tdiv (jym + 3) 4))))
 
--- NOT TRANSLATED: jalali_getMonthDayFromYdays (cal_types/jalali/jalali.go:185): declaration const
+/-- cal_types/jalali/jalali.go:163 -/
+def jalali_getMonthDayFromYdays (yday : Int) : Option (Int × Int) := do
+  let month := (GoSem.u8 (← (SrcExt.utils_BisectLeft jalali_monthLenSum yday)))
+  let day := (GoSem.u8 (yday - (← (GoSem.idx jalali_monthLenSum (GoSem.u8 (month - 1))))))
+  pure (month, day)
 
--- NOT TRANSLATED: jalali_ToJd (cal_types/jalali/jalali.go:173): call of github.com/ilius/libgostarcal/cal_types/jalali.yearStart2820 (not in the list of translated functions)
+/-- cal_types/jalali/jalali.go:133 -/
+def jalali_ToJd (alg2820 : Bool) (date : GoSem.Date) : Option Int := do
+  if alg2820 then
+    let epbase := ((date).Year - 474)
+    let (epbase_d, epbase_m) ← (utils_Divmod epbase 2820)
+    let epyear := (474 + epbase_m)
+    let mm := (GoSem.u8 ((date).Month - 1))
+    pure ((((((((date).Day + (mm * 30)) + (← (utils_IntMin 6 mm))) + (← (utils_Div ((epyear * 682) - 110) 2816))) + ((epyear - 1) * 365)) + (epbase_d * 1029983)) + 1948321) - 1)
+  else
+    let jy := ((date).Year - 979)
+    let (jyd, jym) ← (utils_Divmod jy 33)
+    pure ((((((((365 * jy) + (jyd * 8)) + (← (utils_Div (jym + 3) 4))) + (← (GoSem.idx jalali_monthLenSum (GoSem.u8 ((date).Month - 1))))) + (date).Day) - 1) + 584101) + 1721426)
 
--- NOT TRANSLATED: jalali_JdTo (cal_types/jalali/jalali.go:195): call of github.com/ilius/libgostarcal/cal_types/jalali.yearStart2820 (not in the list of translated functions)
+/-- cal_types/jalali/jalali.go:170 -/
+def jalali_JdTo (alg2820 : Bool) (jd : Int) : Option GoSem.Date := do
+  if alg2820 then
+    let deltaDays := (jd - (← (jalali_ToJd alg2820 (← (SrcExt.lib_NewDate 475 1 1)))))
+    let (cycle, cyear) ← (utils_Divmod deltaDays 1029983)
+    let ycycle := 0
+    let ycycle ← (do
+      if (decide (cyear = 1029982)) then
+        let ycycle := 2820
+        pure ycycle
+      else
+        let (aux1, aux2) ← (utils_Divmod cyear 366)
+        let ycycle := (((← (utils_Div (((2134 * aux1) + (2816 * aux2)) + 2815) 1028522)) + (Int.tdiv cyear 366)) + 1)
+        pure ycycle
+      )
+    let year := (((2820 * cycle) + ycycle) + 474)
+    let yday := ((jd - (← (jalali_ToJd alg2820 (← (SrcExt.lib_NewDate year 1 1))))) + 1)
+    let (month, day) ← (jalali_getMonthDayFromYdays yday)
+    (SrcExt.lib_NewDate year month day)
+  else
+    let jdays := ((jd - 1721426) - 584101)
+    let (j_np, jdays) ← (utils_Divmod jdays 12053)
+    let (yearFact, jdays) ← (utils_Divmod jdays 1461)
+    let year_1 := ((979 + (33 * j_np)) + (4 * yearFact))
+    let (jdays, year_1) ← (do
+      if (decide (jdays ≥ 366)) then
+        let yearPlus := 0
+        let (yearPlus, jdays) ← (utils_Divmod (jdays - 1) 365)
+        let year_1 := (year_1 + yearPlus)
+        pure (jdays, year_1)
+      else
+        pure (jdays, year_1)
+      )
+    let yday_1 := (jdays + 1)
+    let (month_1, day_1) ← (jalali_getMonthDayFromYdays yday_1)
+    (SrcExt.lib_NewDate year_1 month_1 day_1)
 
-/-- cal_types/jalali/jalali.go:228 -/
+/-- cal_types/jalali/jalali.go:210 -/
 def jalali_GetMonthLen (alg2820 : Bool) (year : Int) (month : Int) : Option Int := do
   if (decide (month = 12)) then
     let _c1 ← (jalali_IsLeap alg2820 year)
@@ -478,6 +508,6 @@ def hijri_GetMonthLen (year : Int) (month : Int) : Option Int := do
       pure 29
 
 /-- the functions translated on this run -/
-def translated : List String := ["utils_Mod", "utils_Div", "utils_Divmod", "utils_IntMin", "utils_GetHmsBySeconds", "utils_MonthListIsValid", "utils_DayListIsValid", "utils_WeekDayListIsValid", "lib_GetTotalSeconds", "lib_GetFloatHour", "lib_FloatHourToHMS", "lib_toUint8", "lib_HMS_IsValid", "lib_Date_IsValid", "interval_Less", "julian_IsLeap", "julian_getMonthDayFromYdays", "julian_JdTo", "julian_GetMonthLen", "jalali_IsLeap", "jalali_GetMonthLen", "ethiopian_IsLeap", "ethiopian_ToJd", "ethiopian_JdTo", "ethiopian_GetMonthLen", "gprol_IsLeap", "gprol_ToJd", "gprol_JdTo", "gprol_GetMonthLen", "indian_IsLeap", "indian_ToJd", "indian_JdTo", "indian_GetMonthLen", "hijri_IsLeap", "hijri_ToJd", "hijri_JdTo", "hijri_GetMonthLen"]
+def translated : List String := ["utils_Mod", "utils_Div", "utils_Divmod", "utils_IntMin", "utils_GetHmsBySeconds", "utils_MonthListIsValid", "utils_DayListIsValid", "utils_WeekDayListIsValid", "lib_GetTotalSeconds", "lib_GetFloatHour", "lib_FloatHourToHMS", "lib_toUint8", "lib_HMS_IsValid", "lib_Date_IsValid", "julian_IsLeap", "julian_getYearDays", "julian_getMonthDayFromYdays", "julian_ToJd", "julian_JdTo", "julian_GetMonthLen", "jalali_IsLeap", "jalali_getMonthDayFromYdays", "jalali_ToJd", "jalali_JdTo", "jalali_GetMonthLen", "ethiopian_IsLeap", "ethiopian_ToJd", "ethiopian_JdTo", "ethiopian_GetMonthLen", "gprol_IsLeap", "gprol_ToJd", "gprol_JdTo", "gprol_GetMonthLen", "indian_IsLeap", "indian_ToJd", "indian_JdTo", "indian_GetMonthLen", "hijri_IsLeap", "hijri_ToJd", "hijri_JdTo", "hijri_GetMonthLen"]
 
 end Starcal.Gen.Src
